@@ -17,6 +17,7 @@ func h05a(N int) {
 	var cases []*conformancev1.TestCase
 	var proto, ver, codec, comp [2]int
 	var tls, rawReq, rawResp [2]bool
+	var idem [2]bool
 	names := [2]string{"S/x/one", "S/y/two"}
 	simple := [2]string{"one", "two"}
 	for i := 0; i < N; i++ {
@@ -27,6 +28,12 @@ func h05a(N int) {
 			Codec: conformancev1.Codec(codec[i]), Compression: conformancev1.Compression(comp[i]), StreamType: 1}
 		if tls[i] {
 			req.ServerTlsCert = []byte("PLACEHOLDER")
+		}
+		idem[i] = vBoolAt("idempotent", i, 2)
+		if idem[i] {
+			// the Connect-only RPC of the service: neither grpc-go peer implements it
+			m := "IdempotentUnary"
+			req.Method = &m
 		}
 		if rawReq[i] {
 			req.RawRequest = &conformancev1.RawHTTPRequest{Verb: "POST"}
@@ -60,7 +67,7 @@ func h05a(N int) {
 		okProto := proto[i] == 2 || (proto[i] == 3 && !clientGRPC)
 		okVer := (proto[i] == 2 && ver[i] == 2) || (proto[i] == 3 && (ver[i] == 1 || ver[i] == 2))
 		supported := okProto && okVer && codec[i] == 1 && (comp[i] == 1 || comp[i] == 2) && !tls[i] &&
-			!(rawReq[i] && clientGRPC) && !(rawResp[i] && serverGRPC)
+			!(rawReq[i] && clientGRPC) && !(rawResp[i] && serverGRPC) && !idem[i]
 		marker := "(grpc impls)"
 		if !serverGRPC {
 			marker = "(grpc client impl)"
